@@ -158,11 +158,9 @@ Definition repair_cascade_node (cfg : config) (env : repair_env) (topo : list (h
   let configured := match assoc h topo with Some sf => sf | None => None end in
   match ns_slave ns with
   | None =>
-      (* status unknown: blind re-point to the configured source ("" when not configured) *)
-      match configured with
-      | None => e <- perform_change_master cfg h 0%N ;; match e with Some _ => Ret lost_at | None => exec_ 1905 h SStartRepl ;;; Ret lost_at end
-      | Some src => e <- perform_change_master cfg h src ;; match e with Some _ => Ret lost_at | None => exec_ 1905 h SStartRepl ;;; Ret lost_at end
-      end
+      (* status unknown: blind re-point to the resolved source (the configured one when it is usable) *)
+      src <- find_best_stream_from (S (S (length topo))) cfg env topo h [h] ;;
+      e <- perform_change_master cfg h src ;; match e with Some _ => Ret lost_at | None => exec_ 1905 h SStartRepl ;;; Ret lost_at end
   | Some rs =>
       let running := ns_repl_running ns in
       let upstream := rs_source rs in
